@@ -175,9 +175,13 @@ func (r *resolver) Resolve(ctx context.Context, vk resolve.VersionKey) (*resolve
 		// BFS in lexicographic order of the requirements.
 		for _, idep := range cur.ideps {
 			dvers, err := r.client.MatchingVersions(ctx, idep.VersionKey)
-			if err != nil {
+			if err != nil && !errors.Is(err, resolve.ErrNotFound) {
 				return nil, fmt.Errorf("cannot find matching versions for %s: %w", idep.Version, err)
 			}
+			// A package the client does not know has no matching versions:
+			// the requirement is reported on the node (or satisfied by an
+			// installed alias), as with a LocalClient, which knows every
+			// package mentioned in a requirement.
 			// wouldPick holds the version that would be picked if no dedup
 			// occurs.
 			var wouldPick resolve.Version
